@@ -349,6 +349,14 @@ GEN_THEOREMS = {
     "C07": ("CoreDhcp.Props.GenAlloc4", ["GEN_a4_allocate_eq", "GEN_a4_toOffset_eq"]),
 }
 GEN_THEOREMS_MORE = [
+    # the front of config.Load regenerated (unit configload): a fresh viper instance, always decoded as YAML, the path of -c verbatim, the search directories in order
+    ("C18", "CoreDhcp.Props.GenConfigLoad", ['GEN_configload_load_eq', 'GEN_configload_tail_eq', 'CONFIGLOAD_asked', 'CONFIGLOAD_type_is_yaml_always', 'CONFIGLOAD_explicit_path_verbatim', 'CONFIGLOAD_search_order', 'CONFIGLOAD_reads_once_with_these_settings', 'CONFIGLOAD_read_error_aborts', 'CONFIGLOAD_parses_what_was_read', 'CONFIGLOAD_fresh_instance', 'CONFIGLOAD_tail_is_unit_config', 'CONFIGLOAD_load_is_C18_model', 'CONFIGLOAD_C18', 'CONFIGLOAD_never_panics', 'CONFIGLOAD_main_reads_conf_flag']),
+    # the program as one function (Model/Server.lean): main, config.Load, LoadPlugins, server.Start and the listeners composed
+    ("C13", "CoreDhcp.Props.Server", ['SERVER_trace_is_main', 'SERVER_listeners_get_configured_chain', 'SERVER_started_run_waits', 'SERVER_bad_config_opens_nothing', 'SERVER_C13_end_to_end4', 'SERVER_C13_end_to_end6']),
+    ("C18", "CoreDhcp.Props.Server", ['SERVER_bad_config_opens_nothing']),
+    ("C11", "CoreDhcp.Props.Server", ['SERVER_builtin_chain_is_sys4']),
+    ("C15", "CoreDhcp.Props.Server", ['SERVER_builtin_chain_is_sys4']),
+    ("C12", "CoreDhcp.Props.Server", ['SERVER_builtin_chain_is_sys6']),
     # cmds/coredhcp/main.go, plugins.RegisterPlugin and the Plugin declaration of every built-in plugin regenerated (unit mainreg)
     ("C13", "CoreDhcp.Props.GenMainReg", ['GEN_mainreg_register_eq', 'GEN_mainreg_printLoop_eq', 'GEN_mainreg_regLoop_eq', 'GEN_mainreg_registry0', 'GEN_mainreg_main_eq', 'MAINREG_protocol_support', 'MAINREG_protocol_support_models', 'MAINREG_names_distinct', 'MAINREG_registration_never_panics', 'MAINREG_registry_exact', 'MAINREG_second_registration_panics', 'MAINREG_view4', 'MAINREG_view6', 'MAINREG_unknown_name_rejected', 'MAINREG_unsupported_skipped', 'MAINREG_load_exact4', 'MAINREG_load_exact6', 'MAINREG_run']),
     ("C18", "CoreDhcp.Props.GenMainReg", ['GEN_mainreg_main_eq', 'MAINREG_flag_table', 'MAINREG_log_levels', 'MAINREG_config_before_sockets', 'MAINREG_config_before_sockets_gen', 'MAINREG_run', 'MAINREG_list_plugins_is_pure']),
